@@ -1,7 +1,7 @@
 (* C13 - renumber-tests numbers tests 1..n, touches nothing else, is idempotent.
    Statements only; proofs in Proofs/RenumberProofs.v. *)
 From Coq Require Import String.
-From Verif Require Import Base.Str Base.Lines Model.Renumber Proofs.RenumberProofs Proofs.RenumberIdemProofs.
+From Verif Require Import Base.Str Base.Lines Model.Renumber Proofs.RenumberProofs Proofs.RenumberIdemProofs Proofs.RenumberSpecProofs.
 From Verif Require Tie.Pin_TestIdRegex_src Tie.Pin_TestTitleRegex_src Tie.Pin_RuleIdTestFileNameRegex_src
   Tie.Pin_lits_util_renumber_tests_TestRenumberer_processYaml
   Tie.Pin_lits_util_renumber_tests_TestRenumberer_formatEndOfFile
@@ -94,3 +94,26 @@ Theorem C13_idempotence_example :
   rewrite_lines $"942100" counters0 ls = [$"- test_title: 942100-1"; $"  desc: ""t"""; $"  - test_id: 1"; $"    test_id: 2"; $""].
 Proof. exact idempotent_example. Qed.
 Print Assumptions C13_idempotence_example.
+
+(* THE WHOLE FILE MEETS THE SPEC (refinement): for every list of plain lines in which the two kinds of
+   key lines stay balanced - every test carries an id, a title, or both, in any order - the rewriter
+   writes n on the n-th test_id line, RULE-n on the n-th test_title line and copies every other line:
+   exactly what [renumber_spec] (two independent counters) says.  Unbalanced files are the recorded
+   finding (C13_nth_id_is_n_refuted). *)
+Theorem C13_renumbered_file_meets_the_spec : forall rule ls,
+  Forall plain_line ls -> balanced 0 0 ls ->
+  rewrite_lines rule counters0 ls = renumber_spec rule 0 0 ls.
+Proof. exact renumbered_file_meets_spec. Qed.
+Print Assumptions C13_renumbered_file_meets_the_spec.
+
+Theorem C13_renumbered_lines_meet_the_spec_from_any_state : forall rule ls st,
+  inv st -> Forall plain_line ls -> balanced (idc st) (tic st) ls ->
+  rewrite_lines rule st ls = renumber_spec rule (idc st) (tic st) ls.
+Proof. exact rewrite_lines_meets_spec. Qed.
+Print Assumptions C13_renumbered_lines_meet_the_spec_from_any_state.
+
+Theorem C13_spec_example :
+  renumber_spec $"942100" 0 0 [$"- test_title: a"; $"  test_id: 7"; $"  desc: x"; $"- test_id: 9"; $"- test_title: 942100-5"; $"  test_id: 1"]
+  = [$"- test_title: 942100-1"; $"  test_id: 1"; $"  desc: x"; $"- test_id: 2"; $"- test_title: 942100-2"; $"  test_id: 3"] /\
+  balanced 0 0 [$"- test_title: a"; $"  test_id: 7"; $"  desc: x"; $"- test_id: 9"; $"- test_title: 942100-5"; $"  test_id: 1"].
+Proof. exact spec_example. Qed.
